@@ -191,7 +191,7 @@ var nameAlpha = []string{"a", "B", "é", "Σ"}
 
 // wideAlpha: code points of plane 1, plane 2 and plane 16 (surrogate pairs whose high surrogate differs in every
 // bit group) next to both edges of the surrogate block, for the Unicode character set.
-var wideAlpha = []string{"a", "\U0001F600", "\U00020BB7", "\U0010FFFF", "\ud7ff", "\ue000"}
+var wideAlpha = []string{"a", "\U0001F600", "\U00020BB7", "\U0010FFFF", "\ud7ff", "\ue000", "\ufffd"}
 
 // oemAlpha adds runes whose upper-case form has a different UTF-8 size (U+0131 shrinks to "I",
 // U+0250 grows to U+2C6F): only the OEM branch handles bytes rather than code units.
@@ -666,7 +666,13 @@ func challenge(c *vf.Ctx) {
 		fl := flagCombo(fi)
 		for tn := 0; tn <= 3; tn++ {
 			for _, first := range []bool{false, true} {
-				for _, gap := range []int{0, 3} {
+				gaps := []int{0, 3}
+				if fl&rn.FlagVersion == 0 {
+					// the layout of servers that predate the Version field: payload directly behind the
+					// TargetInfo descriptor, so bytes 48..55 are payload, not a version
+					gaps = []int{0, 3, -8}
+				}
+				for _, gap := range gaps {
 					if fl&rn.FlagTargetInfo == 0 {
 						cases = append(cases, chalCase{flags: fl, tnLen: tn, first: first, gap: gap}, chalCase{flags: fl, tnLen: tn, first: first, gap: gap, extra: 8, verAlt: true})
 						continue
@@ -704,6 +710,9 @@ func challenge(c *vf.Ctx) {
 			if k.verAlt {
 				spec.Version = [8]byte{6, 1, 0xb1, 0x1d, 0, 0, 0, 15}
 			}
+		}
+		if k.gap < 0 && len(spec.TargetName)+len(spec.TargetInfo) < 8 {
+			return // shorter than 56 bytes in all: whether that is still a CHALLENGE is not this lattice's question
 		}
 		msg0 := rn.EncodeChallenge(spec)
 		// MS-NLMP 2.2.1.2: when a field's length is 0 its offset "MUST be ignored on receipt" — servers write the
@@ -754,6 +763,12 @@ func challenge(c *vf.Ctx) {
 				v := cm.Version
 				got := [8]byte{v.ProductMajorVersion, v.ProductMinorVersion, byte(v.ProductBuild), byte(v.ProductBuild >> 8), v.Reserved[0], v.Reserved[1], v.Reserved[2], v.NTLMRevision}
 				t.check("C08/challenge/ParseChallengeMessage/Version", got == spec.Version, func() string { return fmt.Sprintf("%s: Version %+v want bytes %x", desc(), v, spec.Version) })
+			} else {
+				v := cm.Version
+				got := [8]byte{v.ProductMajorVersion, v.ProductMinorVersion, byte(v.ProductBuild), byte(v.ProductBuild >> 8), v.Reserved[0], v.Reserved[1], v.Reserved[2], v.NTLMRevision}
+				t.check("C08/challenge/ParseChallengeMessage/no-Version-reported-when-the-message-carries-none", got == [8]byte{}, func() string {
+					return fmt.Sprintf("%s: NEGOTIATE_VERSION is not set, so the message carries no version; the parser reports Version %+v", desc(), v)
+				})
 			}
 			// the AV pairs, from the reference bytes and from what the parser returned
 			for _, src := range []struct {
